@@ -18,17 +18,18 @@ import (
 
 // Req is one request. Op selects the entry points to exercise.
 type Req struct {
-	Op      string            `json:"op"`             // parse | downstream | eval | match | glob | option
-	Src     string            `json:"src,omitempty"`  // source text / expression / subject
-	Kind    string            `json:"kind,omitempty"` // string | bytes | reader | scanner
-	Cmd     bool              `json:"cmd,omitempty"`  // ParseCommand instead of ParseCommands
-	Env     string            `json:"env,omitempty"`  // "" = nil env, "empty", "aliases"
+	Op      string            `json:"op"`              // parse | downstream | eval | match | glob | option
+	Src     string            `json:"src,omitempty"`   // source text / expression / subject
+	Kind    string            `json:"kind,omitempty"`  // string | bytes | reader | scanner
+	Cmd     bool              `json:"cmd,omitempty"`   // ParseCommand instead of ParseCommands
+	Again   bool              `json:"again,omitempty"` // call ParseCommands a second time on the same source object
+	Env     string            `json:"env,omitempty"`   // "" = nil env, "empty", "aliases"
 	Aliases map[string]string `json:"aliases,omitempty"`
 	Pats    []string          `json:"pats,omitempty"`
 	Mode    uint              `json:"mode,omitempty"`
 	Lo      uint              `json:"lo,omitempty"`
 	Hi      uint              `json:"hi,omitempty"`
-	Dir     string            `json:"dir,omitempty"` // scratch working directory for expansions
+	Dir     string            `json:"dir,omitempty"`   // scratch working directory for expansions
 	Width   uint              `json:"width,omitempty"` // selects the indentation width of the space-indenting configurations (see config in cmd/worker)
 }
 
